@@ -20,6 +20,7 @@ func checkC09(c *Ctx) {
 	c09PassOrder(c)
 	c09SpaceTable(c)
 	c09Verbatim(c)
+	c09OutputBuffer(c)
 	c.NotCovered("idempotence as such and the alignment arithmetic of formatCells; that the output still parses to equal values")
 }
 
@@ -715,4 +716,66 @@ func formatFromBytes(v ssa.Value, seen map[ssa.Value]bool, d int) bool {
 		return formatFromBytes(x.X, seen, d+1)
 	}
 	return false
+}
+
+// R6 output.buffer: what Format and File.Bytes return is what WriteTo wrote, in a buffer of their own.
+func c09OutputBuffer(c *Ctx) {
+	c.Rule("R6 output.buffer: hclwrite.Format and (*File).Bytes return the result of Bytes() of a bytes.Buffer that the function itself allocated (a fresh local, not a pooled or package-level buffer) and that was handed to WriteTo — nothing trims, slices or re-encodes the rendered bytes afterwards (the only bytes of the output that are not token bytes are the SpacesBefore the formatter assigned), and the result cannot be overwritten by a later call")
+	n := 0
+	for _, name := range []string{"Format", "File.Bytes"} {
+		fn := c.P.LookupFunc("hclwrite", name)
+		if fn == nil {
+			c.CheckerFail("output.buffer", "anchor hclwrite."+name+" does not resolve")
+			continue
+		}
+		c.Fn(FuncName(fn))
+		for _, b := range fn.Blocks {
+			ret, ok := b.Instrs[len(b.Instrs)-1].(*ssa.Return)
+			if !ok || len(ret.Results) != 1 {
+				continue
+			}
+			n++
+			c.Sites++
+			key := FuncName(fn) + ":result"
+			call, ok := ret.Results[0].(*ssa.Call)
+			cal := (*ssa.Function)(nil)
+			if ok {
+				cal = call.Call.StaticCallee()
+			}
+			if cal == nil || cal.Name() != "Bytes" || cal.Pkg == nil || cal.Pkg.Pkg.Path() != "bytes" || len(call.Call.Args) != 1 {
+				c.Fail("output.buffer", key, ret.Pos(), "the result is not the Bytes() of the buffer WriteTo wrote ("+pathName(ret.Results[0])+"): the rendered bytes are altered after rendering (trimmed, sliced, copied through something else)")
+				continue
+			}
+			buf := call.Call.Args[0]
+			al, isLocal := buf.(*ssa.Alloc)
+			written := false
+			if isLocal {
+				for _, r := range *al.Referrers() {
+					if wc, ok := r.(*ssa.Call); ok && wc != call {
+						if w := wc.Call.StaticCallee(); w != nil && w.Name() == "WriteTo" && inModule(w) {
+							written = true
+						}
+					}
+					if mi, ok := r.(*ssa.MakeInterface); ok {
+						for _, r2 := range *mi.Referrers() {
+							if wc, ok := r2.(*ssa.Call); ok {
+								if w := wc.Call.StaticCallee(); w != nil && w.Name() == "WriteTo" && inModule(w) {
+									written = true
+								}
+							}
+						}
+					}
+				}
+			}
+			switch {
+			case !isLocal:
+				c.Fail("output.buffer", key, ret.Pos(), "the buffer whose bytes are returned is not allocated by this call ("+pathName(buf)+"): a pooled or shared buffer is reused, and the slice handed to the caller is overwritten by the next call")
+			case !written:
+				c.Fail("output.buffer", key, ret.Pos(), "the buffer whose bytes are returned is not the one handed to WriteTo")
+			default:
+				c.OK("output.buffer", key, ret.Pos(), "Bytes() of a local buffer written by WriteTo")
+			}
+		}
+	}
+	c.Floor("output.buffer returns", n, 2, "Format and File.Bytes")
 }
